@@ -34,7 +34,9 @@ def build_inputs(rng, d: Path, driver, with_crs, stem, empty_area=False, pool=No
         geoms += [place(g, 40.0 * i, 0.0) for g in G[nm]]
     n = len(geoms)
     crs = "EPSG:3067" if with_crs else None
-    traces = gpd.GeoDataFrame({"uid": [f"u{i}" for i in range(n)], "val": [i * 0.25 for i in range(n)]}, geometry=geoms, crs=crs)
+    # attribute columns: an id, a number, and a text column with MISSING values in some rows (digitisers leave remarks empty)
+    traces = gpd.GeoDataFrame({"uid": [f"u{i}" for i in range(n)], "val": [i * 0.25 for i in range(n)], "note": [None if i % 3 == 1 else f"remark {i}" for i in range(n)]},
+                              geometry=geoms, crs=crs)
     area = gpd.GeoDataFrame({"name": ["a"]}, geometry=[box(5000, 5000, 5100, 5100) if empty_area else box(-30, -30, 40.0 * len(names) + 10, 30)], crs=crs)
     tp = d / f"{stem}_traces{EXT[driver]}"
     ap = d / f"{stem}_area{EXT[driver]}"
@@ -120,8 +122,11 @@ def s19_tracevalidate(ctx):
                 if len(out) != len(lib):
                     problems.append(f"{len(out)} rows written, library {len(lib)}")
                 else:
-                    if list(out["uid"]) != list(lib["uid"]) or [float(v) for v in out["val"]] != [float(v) for v in lib["val"]]:
-                        problems.append("attribute values differ from the input rows")
+                    miss = lambda v: v is None or v != v  # noqa: E731
+                    notes_ok = "note" in out.columns and all((miss(a) and miss(b)) or a == b for a, b in zip(out["note"], lt["note"]))
+                    if list(out["uid"]) != list(lib["uid"]) or [float(v) for v in out["val"]] != [float(v) for v in lib["val"]] or not notes_ok:
+                        problems.append(f"attribute values differ from the input rows (text column with missing values: {list(out['note'])[:4] if 'note' in out.columns else 'absent'} "
+                                        f"vs {list(lt['note'])[:4]})")
                     if (out.crs is None) != (lt.crs is None) or (out.crs is not None and out.crs != lt.crs):
                         problems.append(f"CRS {out.crs} vs input {lt.crs}")
                     col = "VALIDATION_ERRORS" if "VALIDATION_ERRORS" in out.columns else "VALIDATION" if "VALIDATION" in out.columns else None
@@ -197,26 +202,35 @@ def s19_network(ctx):
     from fractopo import Network
     from fractopo.cli import APP
 
-    res = StreamResult("S19-network", rule="valid gadget maps: `fractopo network` branch/node GeoPackages vs Network(...) called directly with the same options "
-                       "(truncate / circular / snap); inputs hashed; non-trivial = all")
+    res = StreamResult("S19-network", rule="valid gadget maps: `fractopo network` branch/node GeoPackages -- at explicit paths, or at their documented default paths "
+                       "<general output>/<name>_branches.gpkg and _nodes.gpkg for network names with a dot, a blank or a file suffix -- vs Network(...) called directly with the "
+                       "same options (truncate / snap); inputs hashed; non-trivial = all")
     rng = rng_for(ctx.seed, "S19n")
     runner = CliRunner()
     tmp = Path(tempfile.mkdtemp(prefix="fv_c19n_", dir="/var/tmp"))
     try:
-        for k in range(budget(ctx.tier, 4, 24)):
+        for k in range(budget(ctx.tier, 6, 30)):
             d = tmp / f"n{k}"
             d.mkdir()
             # the network command works on single-part lines (validated data): multi-part rows are rejected by the CLI and by the library alike
             tp, ap, names = build_inputs(rng, d, "GPKG", True, "net", pool=LINE_GADGETS)
             trunc = rng.random() < 0.7
-            bo, no = d / "b.gpkg", d / "n.gpkg"
+            # every other run leaves the branch / node outputs to their documented defaults <general output>/<name>_branches.gpkg, <name>_nodes.gpkg;
+            # network names as users give them: plain, with a dot (a version or a scale: "site1.5m"), with a blank, ending in a known suffix
+            nname = ["site1.5m", "area.v2", "KB 11", "map.gpkg", "netname"][(k // 2) % 5] if k % 2 else "netname"
+            defaults = bool(k % 2)
+            gen_dir = d / "gen"
+            bo, no = (gen_dir / f"{nname}_branches.gpkg", gen_dir / f"{nname}_nodes.gpkg") if defaults else (d / "b.gpkg", d / "n.gpkg")
             before = sha_dir(d)
-            args = ["network", str(tp), str(ap), "--snap-threshold", "0.01", "--truncate-traces" if trunc else "--no-truncate-traces", "--branches-output", str(bo),
-                    "--nodes-output", str(no), "--general-output", str(d / "gen"), "--parameters-output", str(d / "p.csv"), "--name", "netname"]
+            args = ["network", str(tp), str(ap), "--snap-threshold", "0.01", "--truncate-traces" if trunc else "--no-truncate-traces",
+                    "--general-output", str(gen_dir), "--parameters-output", str(d / "p.csv"), "--name", nname]
+            if not defaults:
+                args += ["--branches-output", str(bo), "--nodes-output", str(no)]
             r = runner.invoke(APP, args)
             res.evaluations += 1
             res.nontrivial += 1
-            case = {"stream": "S19-network", "gadgets": names, "truncate": trunc}
+            res.distribution["default_output_paths" if defaults else "explicit_output_paths"] = res.distribution.get("default_output_paths" if defaults else "explicit_output_paths", 0) + 1
+            case = {"stream": "S19-network", "gadgets": names, "truncate": trunc, "name": nname, "default_outputs": defaults}
             problems = []
             after = sha_dir(d)
             for f, h in before.items():
@@ -224,7 +238,7 @@ def s19_network(ctx):
                     problems.append(f"input {f} changed")
             if not bo.exists() or not no.exists():
                 try:
-                    Network(trace_gdf=gpd.read_file(tp), area_gdf=gpd.read_file(ap), snap_threshold=0.01, determine_branches_nodes=True, name="netname",
+                    Network(trace_gdf=gpd.read_file(tp), area_gdf=gpd.read_file(ap), snap_threshold=0.01, determine_branches_nodes=True, name=nname,
                             circular_target_area=False, truncate_traces=trunc)
                     lib_raises = None
                 except Exception as e:  # noqa: BLE001
@@ -234,7 +248,7 @@ def s19_network(ctx):
                 else:
                     res.skipped["library_raises_too"] = res.skipped.get("library_raises_too", 0) + 1
             else:
-                net = Network(trace_gdf=gpd.read_file(tp), area_gdf=gpd.read_file(ap), snap_threshold=0.01, determine_branches_nodes=True, name="netname",
+                net = Network(trace_gdf=gpd.read_file(tp), area_gdf=gpd.read_file(ap), snap_threshold=0.01, determine_branches_nodes=True, name=nname,
                               circular_target_area=False, truncate_traces=trunc)
                 wb, wn = gpd.read_file(bo), gpd.read_file(no)
                 if sorted((g.wkt, c) for g, c in zip(wb.geometry.values, wb["Connection"])) != sorted((g.wkt, c) for g, c in zip(net.branch_gdf.geometry.values, net.branch_gdf["Connection"])):
